@@ -285,8 +285,7 @@ type c17Input struct {
 func c17Run(in *c17Input) Res {
 	b := unhx(in.Bytes)
 	var ms1, ms2 runtime.MemStats
-	runtime.GC()
-	runtime.ReadMemStats(&ms1)
+	runtime.ReadMemStats(&ms1) // TotalAlloc is cumulative: no collection needed
 	done := make(chan Res, 1)
 	go func() {
 		done <- Guard(func() Res {
@@ -327,6 +326,17 @@ func runC17(ctx *Ctx) {
 		// every truncation offset of this object
 		for i := 0; i <= len(valid); i++ {
 			c17Emit(ctx, &c17Input{Kind: kind, Bytes: hx(valid[:i])}, "kind="+kind, "truncate-all")
+		}
+		return
+	}
+	if (ctx.Idx/10)%4 == 1 && len(valid) >= 4 && len(valid) < 260 {
+		// every 4-byte window of this object overwritten by a huge count / length
+		for i := 0; i+4 <= len(valid); i++ {
+			for _, v := range []uint32{0xffffffff, 0x00ffffff} {
+				b := append([]byte{}, valid...)
+				b[i], b[i+1], b[i+2], b[i+3] = byte(v>>24), byte(v>>16), byte(v>>8), byte(v)
+				c17Emit(ctx, &c17Input{Kind: kind, Bytes: hx(b)}, "kind="+kind, "inflate32-all")
+			}
 		}
 		return
 	}
